@@ -194,6 +194,13 @@ def check_formula(case, ctx):
             okf, f0 = ctx.call(f"pdf_outside:{family}", d.pdf, np.array(outs))
             if okf and np.any(np.asarray(f0) != 0):
                 ctx.violation(f"support:pdf:{family}", f"pdf below support != 0: x={outs} -> {np.asarray(f0).tolist()} params={params}")
+            # exactly on the support boundary (zero wave heights, a grid starting at 0): a number, not NaN, not negative
+            # (+inf is the honest value where the density diverges, 0 is what some families return)
+            for form, arg in (("scalar", float(lower)), ("ndarray", np.array([lower, float(x[len(x) // 2])])), ("list", [float(lower)])):
+                okb, fb = ctx.call(f"pdf_at_lower:{family}:{form}", d.pdf, arg)
+                if okb and (np.any(np.isnan(np.asarray(fb, dtype=float))) or np.any(np.asarray(fb, dtype=float) < 0)):
+                    ctx.violation(f"support:pdf_at_lower:{family}", f"pdf({form} {arg!r}) = {np.asarray(fb).tolist()} on the support boundary params={params}")
+                    break
             okc, cl = ctx.call(f"cdf_at_lower:{family}", d.cdf, lower)
             if okc and float(cl) != 0.0:
                 ctx.violation(f"support:cdf_at_lower:{family}", f"cdf(lower)={cl!r} params={params}")
